@@ -3,11 +3,11 @@
 SPEC = dict(
     harness=['h_filter.c'],
     # the default (double) build runs the full harness; the other two real widths run a compact type-generic companion
-    configs=lambda tier: [dict(name='f64'), dict(name='f64-clang', libcc='clang', nworkers=4, of=8), dict(name='f32', real=4, harness=['h_filter_w.c']), dict(name='f80', real=16, harness=['h_filter_w.c']),
+    configs=lambda tier: [dict(name='f64'), dict(name='f64-clang', libcc='clang', nworkers=4, of=8), dict(name='f64-o2', libflavour='san-o2', libdrop=['-fno-strict-aliasing'], nworkers=4, of=8), dict(name='f32', real=4, harness=['h_filter_w.c']), dict(name='f80', real=16, harness=['h_filter_w.c']),
                           dict(name='cxx', harness=['h_cxxw.c', 'h_cxxw_shim.cc'], hflags=['-DVF_CXXW=16'], nworkers=4),
                           # histories of 2^32 bytes and more (4 GiB resident per worker while a case runs; skipped and counted when memory is short)
                           dict(name='giant', harness=['h_tf_giant.c'], flavour='fast', nworkers=2)],
-    parallel_configs=5,
+    parallel_configs=6,
     level='exploration',
     rule='a_tf: every (num_n, den_n) pair in 0..8 x 0..8 is run in every repetition with every input class (impulse, step, alternating, '
          'random) in two regimes. Exact regime: integer inputs, dyadic coefficients (cyclotomic-product / small-integer / fractional '
